@@ -210,6 +210,10 @@ type Gen struct {
 	// WildFlags: also produce flag combinations outside the seven sets.
 	WildFlags bool
 
+	// NoDelta: never produce GSUB 1.1 (its delta arithmetic can leave the
+	// alphabet); format 1.2 is generated instead.
+	NoDelta bool
+
 	// MaxNested bounds the number of lookups that exist only as targets of
 	// nested actions (default 3).
 	MaxNested int
@@ -473,6 +477,9 @@ var (
 // given meta information.
 func (g *Gen) Subtable(k shaper.Kind, m *gtab.LookupMetaInfo) gtab.Subtable {
 	r := g.R
+	if k == shaper.Gsub1_1 && g.NoDelta {
+		k = shaper.Gsub1_2
+	}
 	switch k {
 	case shaper.Gsub1_1:
 		deltas := []glyph.ID{1, 2, 3, 4, 0xFFFF, 0xFFFE}
